@@ -327,6 +327,7 @@ void vh_note(const char *fmt, ...) {
 #include <sys/wait.h>
 #include <unistd.h>
 #include <signal.h>
+#include <poll.h>
 
 int vh_nofork = 0;
 int vh_npass = 1;
@@ -374,7 +375,12 @@ int vh_case_fork(long idx) {
   }
   close(case_pipe[1]);
   long rep[2] = {-1, -1};
-  ssize_t got = read(case_pipe[0], rep, sizeof rep);
+  /* a case that does not finish within the limit (a change that breaks progress) is killed and recorded as a crash */
+  struct pollfd pfd = {case_pipe[0], POLLIN, 0};
+  int limit_ms = getenv("VH_CASE_TIMEOUT") ? atoi(getenv("VH_CASE_TIMEOUT")) * 1000 : 300000;
+  ssize_t got = -1;
+  if (poll(&pfd, 1, limit_ms) > 0) got = read(case_pipe[0], rep, sizeof rep);
+  else kill(pid, SIGKILL);
   close(case_pipe[0]);
   int st = 0;
   waitpid(pid, &st, 0);
